@@ -1005,6 +1005,17 @@ def get_method(it, obj, name):
                 l.length = 0
             return B(f)
         raise Unsupported(f"list.{name} on symbolic list")
+    if isinstance(obj, SymSet):
+        st = obj
+        if name == "add":
+            def f(it, a, k):
+                st.has = z3.Store(st.has, it.unwrap(a[0], st.kty), z3.BoolVal(True))
+            return B(f)
+        if name == "discard":
+            def f(it, a, k):
+                st.has = z3.Store(st.has, it.unwrap(a[0], st.kty), z3.BoolVal(False))
+            return B(f)
+        raise Unsupported(f"set.{name} on symbolic set")
     if isinstance(obj, SymSeq):
         if name == "__getitem__":
             return B(lambda it, a, k: getitem(it, obj, a[0]))
@@ -1639,6 +1650,8 @@ def havoc_value(it, name, kind, cur):
     if isinstance(kind, tuple) and kind[0] == "list":
         ety = kind[1]
         return SymList(ctx.fresh(name + "_len", TInt), z3.Const(ctx.fresh_name(name + "_arr"), z3.ArraySort(z3.IntSort(), ety.sort())), ety)
+    if isinstance(kind, tuple) and kind[0] == "set":
+        return SymSet(z3.Const(ctx.fresh_name(name + "_has"), z3.ArraySort(kind[1].sort(), z3.BoolSort())), kind[1])
     if isinstance(kind, tuple) and kind[0] == "dict":
         kty, vty = kind[1], kind[2]
         return SymDict(
